@@ -99,6 +99,8 @@ type Link struct {
 
 	// unreliable twin (datagram-like) link, optional
 	Unrel *Link
+	// deadAt: when Sever was called (unix nanoseconds), 0 while alive
+	deadAt int64
 }
 
 func NewLink(index int, cfg transport.DialConfig) *Link {
@@ -109,6 +111,7 @@ func NewLink(index int, cfg transport.DialConfig) *Link {
 // return EOF and client writes fail at once.
 func (l *Link) Sever() {
 	l.once.Do(func() {
+		atomic.StoreInt64(&l.deadAt, time.Now().UnixNano())
 		close(l.dead)
 		l.toCli.close(true)
 		l.toBrk.close(true)
@@ -118,9 +121,28 @@ func (l *Link) Sever() {
 	}
 }
 
+// DrainThenSever waits (up to max) until the client has read everything the broker queued so far and then
+// cuts the link: the cut position is then the same in the broker's and in the client's view.
+func (l *Link) DrainThenSever(max time.Duration) {
+	deadline := time.Now().Add(max)
+	for l.toCli.length() > 0 && time.Now().Before(deadline) && !l.Dead() {
+		time.Sleep(20 * time.Microsecond)
+	}
+	l.Sever()
+}
+
 // CloseGracefully ends the link from the broker side after everything queued was delivered.
 func (l *Link) CloseGracefully() {
 	l.toCli.close(false)
+}
+
+// DeadAt returns the moment the link was severed (zero time while alive).
+func (l *Link) DeadAt() time.Time {
+	n := atomic.LoadInt64(&l.deadAt)
+	if n == 0 {
+		return time.Time{}
+	}
+	return time.Unix(0, n)
 }
 
 func (l *Link) Dead() bool {
